@@ -254,7 +254,8 @@ class DevHarness:
     """spec = {"desc": [[type, index, [bytes…]], …],
                "eps":  [["in", number, max_packet_size], ["out", number, max_packet_size(, buffer_size)],
                         ["sig", number, width]],
-               "handlers": [["zlpreg", type, request], …]}      # extra request handlers (see make_handler)
+               "handlers": [["zlpreg", type, request], …],      # extra request handlers (see make_handler)
+               "mps": 8 | 16 | 32 | 64}                         # control endpoint max_packet_size (optional, default 64)
     """
 
     LINE_J, LINE_K, LINE_SE0 = 0b01, 0b10, 0b00
@@ -274,7 +275,19 @@ class DevHarness:
         for t, i, b in spec["desc"]:
             coll.add_descriptor(bytes(b), index=i, descriptor_type=t)
         self.descriptors = coll
-        self.control = self.dev.add_standard_control_endpoint(coll)
+        # control max packet size (spec["mps"], default 64).  `USBDevice.add_standard_control_endpoint(descriptors,
+        # max_packet_size=…)` cannot be used for it: it builds `USBControlEndpoint(utmi=…)` with the default 64 and hands
+        # its kwargs to `add_standard_request_handlers`, which passes `max_packet_size=self._max_packet_size` itself
+        # (TypeError: multiple values for keyword argument 'max_packet_size').  For other sizes the harness therefore does
+        # by hand exactly what that method does, with the size given to the control endpoint's constructor.
+        self.mps = int(spec.get("mps", 64))
+        if self.mps == 64:
+            self.control = self.dev.add_standard_control_endpoint(coll)
+        else:
+            from luna.gateware.usb.usb2.control import USBControlEndpoint
+            self.control = USBControlEndpoint(utmi=self.dev.utmi, max_packet_size=self.mps)
+            self.control.add_standard_request_handlers(coll)
+            self.dev.add_endpoint(self.control)
         self.handlers = []
         for h in spec.get("handlers", []):
             hd = make_handler(h)
